@@ -180,3 +180,55 @@ Proof.
   - intros x Hx. destruct (proj1 Rj x Hx) as [l [Hl Hlen]]. unfold series. now rewrite Hl.
 Qed.
 
+
+(** the fuel of the model's loops is never exhausted: [OutOfFuel] is not an outcome *)
+Lemma nth_ts_not_fuel ts x i e : nth_ts ts x i = Err e -> e <> OutOfFuel.
+Proof.
+  unfold nth_ts. destruct (lookup x ts) as [l|]; [|intros H; inversion H; discriminate].
+  destruct (nth_error l i); intros H; inversion H; discriminate.
+Qed.
+
+Lemma start_env_not_fuel p exo ts k e : start_env p exo ts k = Err e -> e <> OutOfFuel.
+Proof.
+  unfold start_env.
+  assert (Hx : forall l ini e, pin_exo l ts k ini = Err e -> e <> OutOfFuel).
+  { induction l as [|[y s] r IH]; simpl; intros ini e0 H; [discriminate|].
+    destruct (nth_ts ts y k) eqn:E; [eauto|]. inversion H; subst. eapply nth_ts_not_fuel; eauto. }
+  assert (Hl : forall l ini e, pin_lag l ts k ini = Err e -> e <> OutOfFuel).
+  { induction l as [|[y s] r IH]; simpl; intros ini e0 H; [discriminate|].
+    destruct (nth_ts ts s (k - 1)) eqn:E; [eauto|]. inversion H; subst. eapply nth_ts_not_fuel; eauto. }
+  assert (Hg : forall l ini e, guess l ts k ini = Err e -> e <> OutOfFuel).
+  { induction l as [|[y s] r IH]; simpl; intros ini e0 H; [discriminate|].
+    destruct (nth_ts ts y (k - 1)) eqn:E; [eauto|]. inversion H; subst. eapply nth_ts_not_fuel; eauto. }
+  destruct (pin_exo exo ts k []) as [i1|e1] eqn:E1; [|intros H; inversion H; subst; eauto].
+  destruct (pin_lag (p_lagged p) ts k i1) as [i2|e2] eqn:E2; [|intros H; inversion H; subst; eauto].
+  eauto.
+Qed.
+
+Lemma append_all_not_fuel names e k : forall ts, snd (append_all names e k ts) <> Some OutOfFuel.
+Proof.
+  induction names as [|x r IH]; intros ts; simpl; [discriminate|].
+  destruct (lookup x ts) as [l|]; [|simpl; discriminate].
+  destruct (Nat.eqb (List.length l) k); [apply IH|simpl; discriminate].
+Qed.
+
+Lemma step_not_fuel p exo k ts : sr_err (step p exo k ts) <> Some OutOfFuel.
+Proof.
+  unfold step. destruct (start_env p exo ts k) as [ini|e] eqn:Es.
+  2:{ simpl. intros H; inversion H; subst. eapply start_env_not_fuel; eauto. }
+  destruct (lr_err (run_loop p ini)) as [e|] eqn:El.
+  { simpl. intros H; inversion H; subst. unfold run_loop in El.
+    destruct (loop_bound p (S (p_maxiter p)) ini 1%float false 0 [] ltac:(lia) ltac:(lia)) as [_ [_ B]]. congruence. }
+  destruct (deco_pass (S (List.length (p_deco p))) (p_deco p) (lr_env (run_loop p ini)) []) as [[e' computed]|e] eqn:Ed.
+  2:{ simpl. intros H; inversion H; subst. assert (OutOfFuel = ValueError); [|discriminate].
+      eapply deco_pass_err; [|exact Ed]. lia. }
+  destruct (forallb (fun x => is_finite (getv x e')) (endo_names p ++ lag_names p ++ computed)); [|simpl; discriminate].
+  pose proof (append_all_not_fuel (endo_names p ++ lag_names p ++ computed) e' k ts) as Ha.
+  destruct (append_all (endo_names p ++ lag_names p ++ computed) e' k ts). exact Ha.
+Qed.
+
+Lemma run_not_fuel p : rr_err (run p) <> Some OutOfFuel.
+Proof.
+  intros H. destruct (run_fail _ _ H) as [[_ [E _]]|[ts0 [exo' [j [tsj [_ [_ [_ [Hs _]]]]]]]]]; [discriminate|].
+  exact (step_not_fuel _ _ _ _ Hs).
+Qed.
